@@ -7,24 +7,48 @@ Local Open Scope N_scope.
 
 (* Every Encoder method that writes a whole item produces exactly the RFC 8949 preferred
    serialisation (reference encoder enc_pref) of the value it was given, for every argument of its
-   Rust parameter type. *)
+   Rust parameter type — outside the class F2b (Encoder::simple(24..=31), simple_reserved: these values
+   do not exist in RFC 8949, so there is no preferred serialisation to compare with; see
+   C03_simple_reserved_refuted below). *)
 Theorem C03_methods : forall m cs,
-  arg_ok m = true -> run_meth m = Some cs -> flat cs = enc_pref (item_of m).
+  arg_ok m = true -> simple_reserved m = false -> run_meth m = Some cs -> flat cs = enc_pref (item_of m).
 Proof. exact methods_preferred. Qed.
 
-(* The only calls the encoder refuses are simple values 24..=31, which have no well-formed encoding. *)
-Theorem C03_refusals : forall m,
-  arg_ok m = true -> (run_meth m = None <-> simple_unassigned m = true).
+(* The encoder refuses no call, and the class excluded from C03_methods / C03_wellformed is exactly the set
+   of calls whose value has no well-formed encoding at all (item_ok, Spec/Item.v: simple values 24..=31). *)
+Theorem C03_refusals : forall m, arg_ok m = true ->
+  run_meth m <> None /\ (simple_reserved m = true <-> item_ok (item_of m) = false).
 Proof. exact methods_refuse. Qed.
+
+(* F2b (open): the statement without the exclusion is false.  Encoder::simple(24) writes f8 18, which is
+   not a well-formed RFC 8949 item (section 3.3 forbids the two-byte forms f8 00..f8 1f; the reference parser
+   rejects it) — kept because the crate's own test rfc_tv_small pins the RFC 7049 vector simple(24) = f8 18. *)
+Theorem C03_simple_reserved_refuted :
+  exists x, 24 <= x <= 31 /\ arg_ok (MSimple x) = true /\ simple_reserved (MSimple x) = true /\
+    option_map flat (run_meth (MSimple x)) = Some [248; x] /\ one_item [248; x] = None.
+Proof. exact simple_reserved_refuted. Qed.
+
+(* ... and so for each of the eight values: the two bytes written are the serialisation of no well-formed tree. *)
+Theorem C03_simple_reserved_not_wf : forall x, 24 <= x <= 31 ->
+  option_map flat (run_meth (MSimple x)) = Some [248; x] /\
+  forall e, wf e = true -> ser e <> [248; x].
+Proof. exact simple_reserved_not_wf. Qed.
+
+(* the hypotheses of C03_methods / C03_wellformed are satisfiable on both sides of the excluded class *)
+Example C03_methods_example :
+  arg_ok (MSimple 23) = true /\ simple_reserved (MSimple 23) = false /\ option_map flat (run_meth (MSimple 23)) = Some [247] /\
+  arg_ok (MSimple 32) = true /\ simple_reserved (MSimple 32) = false /\ option_map flat (run_meth (MSimple 32)) = Some [248; 32] /\
+  simple_reserved (MSimple 31) = true /\ simple_reserved (MU8 24) = false /\ option_map flat (run_meth (MU8 24)) = Some [24; 24].
+Proof. vm_compute. auto 12. Qed.
 
 (* tag / array / map headers always use the shortest head. *)
 Theorem C03_heads : forall h, hmeth_ok h = true -> flat (run_hmeth h) = hmeth_head h.
 Proof. exact hmethods_preferred. Qed.
 
 (* … and those bytes are exactly one well-formed data item, every head in its shortest form, whose
-   data-model value is the value given. *)
+   data-model value is the value given (again outside F2b). *)
 Theorem C03_wellformed : forall m cs,
-  arg_ok m = true -> run_meth m = Some cs ->
+  arg_ok m = true -> simple_reserved m = false -> run_meth m = Some cs ->
   exists e, flat cs = ser e /\ wf e = true /\ pref e = true /\ val_of e = item_of m.
 Proof. exact methods_wellformed. Qed.
 
@@ -97,6 +121,8 @@ Print Assumptions C03_balanced.
 Print Assumptions C03_iter_array.
 Print Assumptions C03_iter_map.
 Print Assumptions C03_refusals.
+Print Assumptions C03_simple_reserved_refuted.
+Print Assumptions C03_simple_reserved_not_wf.
 Print Assumptions C03_heads.
 Print Assumptions C03_types.
 Print Assumptions C03_types_wellformed.
